@@ -37,12 +37,6 @@ def run(c):
     return search
 
 
-def replay(c):
-    import vf
-    import sys
-    return vf.generic_replay(c, sys.modules[__name__])
-
-
 META = {
     "level": "proof",
     "technique": "Lean 4 theorems over an executable model of data_model/sampling.go (all buckets, budgets, options, draw streams and tie orders) + exact differential correspondence with the real sampler (observed draws) + direct oracle on the real selector",
